@@ -171,6 +171,20 @@ func ZZC19Verbs(n int) {
 	res2 := a.Resource("/q", zzMW("T"))
 	res2.Any(h(31)).Remove("PUT", "GET")
 	b.Handle("/q", h(31), zzMWs("T")).Remove("/q", "PUT", "GET")
+	// caller-owned middleware slices with spare capacity must not be written to
+	base := make([]types.Middleware[*hnd], 0, 4)
+	base = append(base, zzMW("Ba"))
+	audit := append(base, zzMW("Bb"))
+	p.Handle("/al1", h(41), base, "GET")
+	p.Handle("/al2", h(42), audit, "GET")
+	res3 := p.Resource("/al3", zzMW("S3"))
+	res3.Handle(h(43), base, "GET")
+	res3.Handle(h(44), audit, "POST")
+	p.Prefix("/al4", base...).Get("/x", h(45))
+	p.Prefix("/al5", audit...).Get("/x", h(46))
+	b.Handle("/p/al1", h(41), zzMWs("Ba", "P"), "GET").Handle("/p/al2", h(42), zzMWs("Ba", "Bb", "P"), "GET")
+	b.Handle("/p/al3", h(43), zzMWs("Ba", "S3", "P"), "GET").Handle("/p/al3", h(44), zzMWs("Ba", "Bb", "S3", "P"), "POST")
+	b.Handle("/p/al4/x", h(45), zzMWs("Ba", "P"), "GET").Handle("/p/al5/x", h(46), zzMWs("Ba", "Bb", "P"), "GET")
 	zzv.Assert(p.Pattern() == "/p" && res.Pattern() == "/p/r/{id:digit}" && p.Router() == a && res.Router() == a, "facade-accessors")
 	zzv.Cover("verbs")
 
@@ -180,7 +194,7 @@ func ZZC19Verbs(n int) {
 		zzv.Assert(zzJoin(ra[pat]) == zzJoin(rb[pat]) && len(ra[pat]) > 0, "verbs:method-set-differs-from-explicit-Handle")
 	}
 	val := zzv.Bytes("v", n)
-	for _, path := range []string{"/g", "/any", "/p/x/" + val, "/p/pany", "/p/ph", "/p/r/" + val, "/q"} {
+	for _, path := range []string{"/g", "/any", "/p/x/" + val, "/p/pany", "/p/ph", "/p/r/" + val, "/q", "/p/al1", "/p/al2", "/p/al3", "/p/al4/x", "/p/al5/x"} {
 		for _, m := range []string{"GET", "POST", "DELETE", "PUT", "PATCH", "CONNECT", "HEAD", "OPTIONS"} {
 			oa, wa := zzServe(a, zzReq(m, path))
 			ob, wb := zzServe(b, zzReq(m, path))
